@@ -249,7 +249,6 @@ class Line(object):
         self.mark = False
         if not toks:
             self.text = ""
-            self.segs = []
             return
         for t in toks:
             tx, se = conc.token(t)
@@ -366,8 +365,6 @@ def universe(case):
     if case["cf"]["fam"] in ("collide", "suffix", "prefix"):
         for k in ("ip", "dom", "mac"):
             nid[k] = max(nid[k], 2)
-    if case["cf"]["fam"] == "suffix":
-        pass
     return nid
 
 
@@ -418,8 +415,7 @@ def run_spec(cleaner, spec, lines, path, tmp, tag):
                 with open(dst) as f:
                     out = f.read().split("\n")
         finally:
-            pass
-        shutil.rmtree(root, True)
+            shutil.rmtree(root, True)
         return out, stored, raised
     raise ValueError(path)
 
